@@ -154,7 +154,7 @@ def gen_dates():
     return [("Date", s, ("Date", s), v) for s, v in valid_dates()]
 
 
-FRACS = ["", ".1", ".123456", ".123456789012"]
+FRACS = ["", ".1", ".0", ".000", ".120", ".123456", ".999999", ".123456789012"]
 
 
 def micro(frac):
